@@ -43,7 +43,7 @@
 (***************************************************************************)
 EXTENDS Values, Strings
 
-UnitIds == {"sec"}
+UnitIds == {"sec", "bytes", "nanos"}   \* UnitDurationSeconds, UnitBytes, UnitDurationNanoseconds
 
 IntS(min, max, units) == [kind |-> "int", min |-> min, max |-> max, units |-> units]
 FloatS(min, max, units) == [kind |-> "float", min |-> min, max |-> max, units |-> units]
